@@ -101,3 +101,6 @@ inst! {
     #[cfg(any(verif_unit = "all", verif_unit = "conn_id_t"))]
     t_c09_conn_id_release_free1 = release_one::<1>;
 }
+
+#[cfg(verif_replay)]
+include!("/verif/.cache/replay/conn_id_real__verif.rs");
